@@ -35,6 +35,7 @@ theorem dstep_phase {c : DCfg} {s s' : DSt} {l : DLabel} (h : dstep c s l = some
   | openSession i => obtain ⟨ss, f, _, _, _, _, rfl⟩ := dstep_openSession_inv h; exact hp
   | sql i k t => obtain ⟨ss, f, _, _, _, _, _, _, _, rfl⟩ := dstep_sql_inv h; exact hp
   | finish i r b => obtain ⟨ss, _, _, _, _, _, rfl⟩ := dstep_finish_inv h; exact hp
+  | closeSession i k => obtain ⟨ss, _, _, _, rfl⟩ := dstep_closeSession_inv h; exact hp
   | signal => obtain ⟨_, _, rfl⟩ := dstep_signal_inv h; exact hp
   | beginDrop => obtain ⟨_, _, _, rfl⟩ := dstep_beginDrop_inv h; simp
   | drop => obtain ⟨db, rest, _, _, rfl⟩ := dstep_drop_inv h; exact hp
@@ -57,6 +58,7 @@ theorem dstep_cancelPhase {c : DCfg} {s s' : DSt} {l : DLabel} (h : dstep c s l 
   | finish i r b =>
     obtain ⟨ss, hp, _, _, _, _, rfl⟩ := dstep_finish_inv h
     intro _; simp [hp]
+  | closeSession i k => obtain ⟨ss, _, _, _, rfl⟩ := dstep_closeSession_inv h; exact hi
   | signal => obtain ⟨hp, _, rfl⟩ := dstep_signal_inv h; intro _; simp [hp]
   | beginDrop => obtain ⟨_, _, _, rfl⟩ := dstep_beginDrop_inv h; simp
   | drop => obtain ⟨db, rest, hp, _, rfl⟩ := dstep_drop_inv h; intro _; simp [hp]
@@ -94,6 +96,9 @@ theorem dstep_log {c : DCfg} {s s' : DSt} {l : DLabel} (h : dstep c s l = some s
     · intro he
       obtain ⟨k, _, hk⟩ := List.mem_map.mp he
       cases hk
+  | closeSession i k =>
+    obtain ⟨ss, _, _, _, rfl⟩ := dstep_closeSession_inv h
+    exact ⟨[.eof k], rfl, id, by simp [CEv.quiet], by simp⟩
   | signal =>
     obtain ⟨_, hc, rfl⟩ := dstep_signal_inv h
     exact ⟨[.cancel], rfl, by simp, by simp [hc], by simp⟩
@@ -187,28 +192,37 @@ structure CancelledRun (s s' : DSt) : Prop where
     ∃ new, s'.results = s.results ++ new ∧
       /- … are all reported skipped … -/
       (∀ i ∈ started, (i, FileResult.skipped) ∈ new) ∧
-      /- … and every new result is a skip of a started file or the end of a file that was in flight -/
+      /- … and every new result is a skip of a started file or the end of a file that was in flight;
+         a file in flight that has opened a session ends cancelled or with its real result, one that
+         had not yet looked at the flag (it had not begun) may be skipped -/
       (∀ p ∈ new, (p.1 ∈ started ∧ p.2 = FileResult.skipped) ∨
-        (p.1 ∈ s.inflight.map (·.1) ∧ p.2 ≠ FileResult.skipped))
-  /-- nothing new is in flight, and no session is added to a file in flight -/
-  inflight : ∀ p ∈ s'.inflight, p ∈ s.inflight
+        (p.1 ∈ s.inflight.map (·.1) ∧ (p.2 = FileResult.skipped → p.1 ∉ s.begun)))
+  /-- nothing new is in flight, and no session is added to a file in flight: every file in flight
+      afterwards was in flight before, and its open sessions are among (a sublist of) those it had —
+      sessions are only closed (`closeSession`), never opened -/
+  inflight : ∀ p ∈ s'.inflight, ∃ q ∈ s.inflight, q.1 = p.1 ∧ p.2.Sublist q.2
   nextSess : s'.nextSess = s.nextSess
+  /-- no file opens a session any more -/
+  begun : s'.begun = s.begun
 
 theorem CancelledRun.refl (s : DSt) (hc : s.cancelled = true) : CancelledRun s s :=
-  ⟨hc, ⟨[], by simp, [], by simp, by simp, by simp⟩, fun _ h => h, rfl⟩
+  ⟨hc, ⟨[], by simp, [], by simp, by simp, by simp⟩,
+    fun p h => ⟨p, h, rfl, List.Sublist.refl _⟩, rfl, rfl⟩
 
 theorem CancelledRun.of_same {s s' : DSt} (hc : s'.cancelled = true) (h1 : s'.pending = s.pending)
-    (h2 : s'.results = s.results) (h3 : s'.inflight = s.inflight) (h4 : s'.nextSess = s.nextSess) :
+    (h2 : s'.results = s.results) (h3 : s'.inflight = s.inflight) (h4 : s'.nextSess = s.nextSess)
+    (h5 : s'.begun = s.begun) :
     CancelledRun s s' :=
-  ⟨hc, ⟨[], by simp [h1], [], by simp [h2], by simp, by simp⟩, fun _ h => h3 ▸ h, h4⟩
+  ⟨hc, ⟨[], by simp [h1], [], by simp [h2], by simp, by simp⟩,
+    fun p h => ⟨p, h3 ▸ h, rfl, List.Sublist.refl _⟩, h4, h5⟩
 
 theorem CancelledRun.trans {a b c : DSt} (h1 : CancelledRun a b) (h2 : CancelledRun b c) :
     CancelledRun a c := by
   obtain ⟨st1, hp1, new1, hr1, hs1, hn1⟩ := h1.pending
   obtain ⟨st2, hp2, new2, hr2, hs2, hn2⟩ := h2.pending
   refine ⟨h2.cancelled, ⟨st1 ++ st2, by rw [hp1, hp2, List.append_assoc], new1 ++ new2,
-    by rw [hr2, hr1, List.append_assoc], ?_, ?_⟩, fun p hp => h1.inflight p (h2.inflight p hp),
-    h2.nextSess.trans h1.nextSess⟩
+    by rw [hr2, hr1, List.append_assoc], ?_, ?_⟩, ?_, h2.nextSess.trans h1.nextSess,
+    h2.begun.trans h1.begun⟩
   · intro i hi
     rcases List.mem_append.mp hi with hi | hi
     · exact List.mem_append_left _ (hs1 i hi)
@@ -221,9 +235,14 @@ theorem CancelledRun.trans {a b c : DSt} (h1 : CancelledRun a b) (h2 : Cancelled
     · rcases hn2 p hp with ⟨h, h'⟩ | ⟨h, h'⟩
       · exact Or.inl ⟨List.mem_append_right _ h, h'⟩
       · right
-        refine ⟨?_, h'⟩
+        refine ⟨?_, fun e => h1.begun ▸ h' e⟩
         obtain ⟨q, hq, hq1⟩ := List.mem_map.mp h
-        exact List.mem_map.mpr ⟨q, h1.inflight q hq, hq1⟩
+        obtain ⟨q', hq', hq'1, _⟩ := h1.inflight q hq
+        exact List.mem_map.mpr ⟨q', hq', hq'1.trans hq1⟩
+  · intro p hp
+    obtain ⟨q, hq, hq1, hq2⟩ := h2.inflight p hp
+    obtain ⟨q', hq', hq'1, hq'2⟩ := h1.inflight q hq
+    exact ⟨q', hq', hq'1.trans hq1, hq2.trans hq'2⟩
 
 theorem sessionsOf_mem {l : List (Nat × List Nat)} {i : Nat} {ss : List Nat}
     (h : sessionsOf l i = some ss) : (i, ss) ∈ l := by
@@ -242,32 +261,43 @@ theorem sessionsOf_mem {l : List (Nat × List Nat)} {i : Nat} {ss : List Nat}
 theorem dstep_cancelledRun {c : DCfg} {s s' : DSt} {l : DLabel} (h : dstep c s l = some s')
     (hc : s.cancelled = true) : CancelledRun s s' := by
   cases l with
-  | create => obtain ⟨db, rest, _, _, rfl⟩ := dstep_create_inv h; exact CancelledRun.of_same hc rfl rfl rfl rfl
-  | beginRun => obtain ⟨_, _, rfl⟩ := dstep_beginRun_inv h; exact CancelledRun.of_same hc rfl rfl rfl rfl
+  | create => obtain ⟨db, rest, _, _, rfl⟩ := dstep_create_inv h; exact CancelledRun.of_same hc rfl rfl rfl rfl rfl
+  | beginRun => obtain ⟨_, _, rfl⟩ := dstep_beginRun_inv h; exact CancelledRun.of_same hc rfl rfl rfl rfl rfl
   | start =>
     obtain ⟨i, rest, _, hpend, h3⟩ := dstep_start_inv h
     rcases h3 with ⟨_, _, rfl⟩ | ⟨hc', _, rfl⟩
-    · exact ⟨hc, ⟨[i], by simp [hpend], [(i, .skipped)], rfl, by simp, by simp⟩, fun _ h => h, rfl⟩
+    · exact ⟨hc, ⟨[i], by simp [hpend], [(i, .skipped)], rfl, by simp, by simp⟩,
+        fun p h => ⟨p, h, rfl, List.Sublist.refl _⟩, rfl, rfl⟩
     · rw [hc] at hc'; cases hc'
   | openSession i =>
     obtain ⟨ss, f, _, _, _, hc', rfl⟩ := dstep_openSession_inv h
     rw [hc] at hc'; cases hc'
   | sql i k t =>
     obtain ⟨ss, f, _, _, _, _, _, _, _, rfl⟩ := dstep_sql_inv h
-    exact CancelledRun.of_same hc rfl rfl rfl rfl
+    exact CancelledRun.of_same hc rfl rfl rfl rfl rfl
   | finish i r b =>
     obtain ⟨ss, _, hs, hne, _, _, rfl⟩ := dstep_finish_inv h
     refine ⟨by simp [hc], ⟨[], by simp, [(i, r)], rfl, by simp, ?_⟩,
-      fun p hp => (List.mem_filter.mp hp).1, rfl⟩
+      fun p hp => ⟨p, (List.mem_filter.mp hp).1, rfl, List.Sublist.refl _⟩, rfl, rfl⟩
     intro p hp
     simp only [List.mem_singleton] at hp
     subst hp
     right
-    exact ⟨List.mem_map.mpr ⟨(i, ss), sessionsOf_mem hs, rfl⟩, hne⟩
+    exact ⟨List.mem_map.mpr ⟨(i, ss), sessionsOf_mem hs, rfl⟩, fun e => (hne e).2.1⟩
+  | closeSession i k =>
+    obtain ⟨ss, _, hs, _, rfl⟩ := dstep_closeSession_inv h
+    refine ⟨hc, ⟨[], by simp, [], by simp, by simp, by simp⟩, ?_, rfl, rfl⟩
+    intro p hp
+    obtain ⟨q, hq, rfl⟩ := List.mem_map.mp (show p ∈ s.inflight.map _ from hp)
+    by_cases hqi : q.1 = i
+    · rw [if_pos hqi]
+      exact ⟨(i, ss), sessionsOf_mem hs, rfl, List.filter_sublist⟩
+    · rw [if_neg hqi]
+      exact ⟨q, hq, rfl, List.Sublist.refl _⟩
   | signal => obtain ⟨_, hc', rfl⟩ := dstep_signal_inv h; rw [hc] at hc'; cases hc'
-  | beginDrop => obtain ⟨_, _, _, rfl⟩ := dstep_beginDrop_inv h; exact CancelledRun.of_same hc rfl rfl rfl rfl
-  | drop => obtain ⟨db, rest, _, _, rfl⟩ := dstep_drop_inv h; exact CancelledRun.of_same hc rfl rfl rfl rfl
-  | done => obtain ⟨_, _, rfl⟩ := dstep_done_inv h; exact CancelledRun.of_same hc rfl rfl rfl rfl
+  | beginDrop => obtain ⟨_, _, _, rfl⟩ := dstep_beginDrop_inv h; exact CancelledRun.of_same hc rfl rfl rfl rfl rfl
+  | drop => obtain ⟨db, rest, _, _, rfl⟩ := dstep_drop_inv h; exact CancelledRun.of_same hc rfl rfl rfl rfl rfl
+  | done => obtain ⟨_, _, rfl⟩ := dstep_done_inv h; exact CancelledRun.of_same hc rfl rfl rfl rfl rfl
 
 theorem drun_cancelledRun {c : DCfg} (ls : List DLabel) :
     ∀ (s s' : DSt), s.cancelled = true → drun c s ls = some s' → CancelledRun s s' := by
